@@ -937,7 +937,7 @@ func runMalformed(r *vs.Rand, i int, seed uint64, out *vs.Out) {
 }
 
 func runInterleave(r *vs.Rand, i int, seed uint64, out *vs.Out) {
-	cfg := genCfg(r, false)
+	cfg := genCfg(r, r.Chance(30)) // a third with rolling strategies: ControllerRevisions are claimed, written and pruned too
 	cfg.SSA = false
 	sc := buildScenario(r, cfg)
 	defer sc.w.close()
@@ -1120,6 +1120,28 @@ func runInterleave(r *vs.Rand, i int, seed uint64, out *vs.Out) {
 		k := orphans[r.Intn(len(orphans))]
 		choice := []int{2, 0, 1, 1, 3, 11, 11}[r.Intn(7)]
 		w.sim.EnvBefore = append(w.sim.EnvBefore, &vs.EnvTrigger{Verb: "update", Resource: k.c.Resource, Name: k.name, F: func(s *vs.Sim) { doAct(s, k, choice) }})
+	}
+	// an orphaned ControllerRevision is handed to the other parent after the cache was filled, or between the live read and
+	// the write of its adoption
+	for _, o := range w.sim.List(revGroup, "controllerrevisions") {
+		if refs, _ := o["metadata"].(map[string]interface{})["ownerReferences"].([]interface{}); len(refs) > 0 || other == nil {
+			continue
+		}
+		if !r.Chance(60) {
+			break
+		}
+		rns, rname := objStr(o, "metadata", "namespace"), objStr(o, "metadata", "name")
+		give := func(s *vs.Sim) {
+			s.Mutate(revGroup, "controllerrevisions", rns, rname, func(x map[string]interface{}) {
+				x["metadata"].(map[string]interface{})["ownerReferences"] = []interface{}{ownerRef(other, true)}
+			})
+		}
+		if r.Bool() {
+			give(w.sim)
+		} else {
+			w.sim.EnvBefore = append(w.sim.EnvBefore, &vs.EnvTrigger{Verb: "update", Resource: "controllerrevisions", Name: rname, F: give})
+		}
+		break
 	}
 	na := 1 + r.Intn(2)
 	for j := 0; j < na; j++ {
